@@ -1086,7 +1086,7 @@ EXPECTED_PROBES = [
     "get_unknown_port", "self_forward_delivery", "two_endpoint_cycle", "held_then_received_by_later_poll",
     "duplicate_datagram_two_fanouts", "multiple_receives_in_one_call", "chained_hub_to_sink",
     "spin_sources_and_rules_same_endpoint", "spin_polled_ready_endpoint", "fanout_ge2_destinations", "fanout_ge2_sinks",
-    "none_handle_rejected", "duplicate_sink_rejected", "duplicate_source_rejected",
+    "none_handle_rejected", "duplicate_sink_rejected", "duplicate_source_rejected", "open_close_state_checked",
 ]
 
 
